@@ -501,3 +501,7 @@ CHECKS["C05"]["harnesses"].append(
 CHECKS["C10"]["harnesses"].append(
     dict(_WS, harness="Harness_C10_wsFrames", reach=["c10.ws.frames"], quick={"sample_models": 40, "sample_every": 3}, thorough={"params": {"two": 1}, "sample_models": 60, "sample_every": 61},
          what="the real frame decoders of graphql-ws and graphql-transport-ws on 43 text frames (every JSON kind at top level and in every member, unknown / missing / duplicated types, truncations) [thorough: every pair]: a message of a known type or errInvalidMsg, never a panic; gorilla's NextReader is a stub playing the frames, natively a loopback connection"))
+
+_WIRE = dict(_WS, harness="Harness_C11_wire", reach=["c11.wire.sent", "c11.wire.noop", "c11.wire.decoded", "c11.wire.refused"], quick={"sample_models": 40, "sample_every": 7},
+             what="the real exchangers of both subprotocols against tables written from the protocol documents: every server message x 3 ids x 4 payloads through Send (type name, id, payload unchanged, or nothing written), 12 client frame types through NextMessage (the message it stands for, or refused)")
+CHECKS["C11"]["harnesses"].append(dict(_WIRE))
